@@ -250,6 +250,11 @@ func Orchestrate(cfg OrchConfig) int {
 				cmd.Stdout = ef
 				cmd.Stderr = ef
 				cmd.Env = append(os.Environ(), "GOTRACEBACK=all")
+				if fl == "cover" {
+					cd := filepath.Join(logDir, "covdata")
+					os.MkdirAll(cd, 0o755)
+					cmd.Env = append(cmd.Env, "GOCOVERDIR="+cd)
+				}
 				err := cmd.Run()
 				ef.Close()
 				mu.Lock()
@@ -359,6 +364,18 @@ func Orchestrate(cfg OrchConfig) int {
 		"unlisted_violations": violList,
 		"extra":               m.extra,
 	}
+	for _, fl := range flavours {
+		if fl == "cover" {
+			fc, err := functionCoverage(filepath.Join(logDir, "covdata"), cfg.VerifDir, p.ID)
+			if err != nil {
+				fmt.Fprintf(os.Stderr, "function coverage could not be computed: %v\n", err)
+				broken = true
+			} else {
+				cov["function_coverage"] = fc
+			}
+			os.RemoveAll(filepath.Join(logDir, "covdata"))
+		}
+	}
 	ev := map[string]interface{}{
 		"property_id": p.ID, "tier": cfg.Tier, "seed": cfg.Seed, "level": "exploration",
 		"coverage": cov, "assumptions": p.Assume, "wall_s": time.Since(start).Seconds(), "violations": totalViol,
@@ -427,4 +444,55 @@ func dedupeSamples(in []interface{}) []interface{} {
 		}
 	}
 	return out
+}
+
+
+// functionCoverage merges the counter files the cover-flavour children wrote and reports, per source file of
+// gorgonia/tensor, how many functions the workload entered (go tool covdata func). The list of functions not entered
+// is written next to the evidence (evidence/<id>.unreached.txt) and summarised per file.
+func functionCoverage(dir, verifDir, id string) (map[string]interface{}, error) {
+	cmd := exec.Command("go", "tool", "covdata", "func", "-i="+dir)
+	out, err := cmd.Output()
+	if err != nil {
+		return nil, fmt.Errorf("go tool covdata: %v", err)
+	}
+	type fileCov struct{ total, hit int }
+	files := map[string]*fileCov{}
+	var unreached []string
+	total, hit := 0, 0
+	for _, l := range strings.Split(string(out), "\n") {
+		f := strings.Fields(l)
+		if len(f) != 3 || !strings.HasPrefix(f[0], "gorgonia.org/tensor") {
+			continue
+		}
+		file := f[0]
+		if i := strings.Index(file, ".go:"); i >= 0 {
+			file = file[:i+3]
+		}
+		file = strings.TrimPrefix(file, "gorgonia.org/tensor/")
+		fc := files[file]
+		if fc == nil {
+			fc = &fileCov{}
+			files[file] = fc
+		}
+		fc.total++
+		total++
+		if f[2] != "0.0%" {
+			fc.hit++
+			hit++
+		} else {
+			unreached = append(unreached, file+":"+f[1])
+		}
+	}
+	if total == 0 {
+		return nil, fmt.Errorf("no functions of gorgonia.org/tensor in the coverage data")
+	}
+	sort.Strings(unreached)
+	os.WriteFile(filepath.Join(verifDir, "evidence", id+".unreached.txt"), []byte(strings.Join(unreached, "\n")+"\n"), 0o644)
+	per := map[string]string{}
+	for f, fc := range files {
+		per[f] = fmt.Sprintf("%d/%d", fc.hit, fc.total)
+	}
+	return map[string]interface{}{"functions_entered": hit, "functions_total": total, "per_file": per,
+		"unreached_list": "evidence/" + id + ".unreached.txt", "unreached": len(unreached)}, nil
 }
